@@ -77,6 +77,17 @@ def outer_partial(n):
   return posonly_defaults(helper_partial(n), 3, bias=helper(n), mode=[helper_partial(n + 1)])
 
 
+@auto_config.auto_config(experimental_always_inline=False)
+def helper_pos(n, scale=2, /, mode='m', *more):
+  """An auto_config function with positional-only parameters and *args."""
+  return mutable_defaults(scale=[n, scale, mode, list(more)], hooks=[n])
+
+
+@auto_config.auto_config
+def outer_pos(n):
+  return posonly_defaults(helper_pos(n), 3, bias=helper_pos(n, 5), mode=[helper_pos(n + 1, 6, 'x', 7, 8)])
+
+
 def _unbound_callable(v):
   if isinstance(v, (Rec, Tok)):
     return False
@@ -293,8 +304,13 @@ def cases(tier, r):
     yield 'inline', {'seed': n, 'transform': 'inline'}
     yield 'inline', {'seed': n, 'transform': 'inline', 'partial': True}
     yield 'inline', {'seed': n, 'transform': 'inline', 'chain': True}
+    yield 'inline', {'seed': n, 'transform': 'inline', 'positional': True}
     yield 'tagged_odd', {'seed': n, 'transform': 'tagged_odd'}
     yield 'dataclasses', {'seed': n, 'transform': 'dataclasses'}
+  for _ in range(40 if tier == 'quick' else 600):
+    yield 'leaf_identity', {'seed': r.getrandbits(48), 'transform': 'leaf_identity',
+                            'apply': r.choice(['with_defaults_trimmed', 'unintern_tuples', 'replace_unconfigured_partials',
+                                               'clear_argument_history', 'materialize_tags'])}
   for _ in range(40 if tier == 'quick' else 600):
     yield 'buildable_defaults', {'seed': r.getrandbits(48), 'transform': 'buildable_defaults'}
 
@@ -452,6 +468,46 @@ def _trainer(steps=1, schedule=fdl.Config(_sched, 0.1), extra=(fdl.Partial(_sche
              (), {})
 
 
+_AUTO = object()            # a sentinel compared by identity
+
+
+class _Vocab:
+  pass
+
+
+class _Tokenizer:            # an opaque leaf (not traversed) that refers to a shared object
+  def __init__(self, vocab):
+    self.vocab = vocab
+
+
+def _pipeline(rate=None, tok_a=None, tok_b=None, vocab=None, items=None):
+  return ('pipeline', 'auto' if rate is _AUTO else ('other-object' if type(rate) is object else rate),
+          tok_a is not None and tok_b is not None and tok_a.vocab is tok_b.vocab,
+          tok_a is not None and tok_a.vocab is vocab, repr(items))
+
+
+def run_leaf_identity(case):
+  """Transformations that return a (partly) new configuration hand the callables the SAME leaf
+  objects: a sentinel is still that sentinel, leaves that refer to one object still do."""
+  r = random.Random(case['seed'])
+  v = _Vocab()
+  node = fdl.Config(_pipeline, rate=_AUTO if r.random() < 0.7 else 0.5, tok_a=_Tokenizer(v), tok_b=_Tokenizer(v),
+                    vocab=v if r.random() < 0.7 else None, items=[1, (2, 3)])
+  root = node if r.random() < 0.5 else fdl.Config(graphs.node_fn(1, 0), p=[node], q={'k': node})
+  name = case['apply']
+  obs = {'transform': 'leaf_identity', 'applied': name}
+  try:
+    before = bind_canon(fdl.build(root))
+    t = apply(name, root)
+    after = bind_canon(fdl.build(t))
+    obs['same_build'] = after == before
+    if not obs['same_build']:
+      obs['before'], obs['after'] = repr(before)[:300], repr(after)[:300]
+  except Exception as e:
+    obs['raised'] = f'{type(e).__name__}: {e}'[:200]
+  return obs
+
+
 def run_buildable_defaults(case):
   """materialize_defaults where a default value is itself a Buildable (or a container of them, or
   a Buildable whose own default is one): ONE call sets every parameter that has a default, at
@@ -488,6 +544,8 @@ def execute(case):
   obs = {'transform': name}
   if name == 'buildable_defaults':
     return run_buildable_defaults(case), None
+  if name == 'leaf_identity':
+    return run_leaf_identity(case), None
   if name == 'materialize_flat':
     from harness import argstore
     real, _cfg = argstore.run_real(case)
@@ -531,7 +589,8 @@ def execute(case):
     obs['problems'] = problems
     return obs, None
   if name == 'inline':
-    top = outer_partial if case.get('partial') else (outer_chain if case.get('chain') else outer)
+    top = outer_partial if case.get('partial') else (outer_chain if case.get('chain') else
+                                                     (outer_pos if case.get('positional') else outer))
     cfg = top.as_buildable(case['seed'])
     base = build_canon(cfg)
     direct = bind_canon(top(case['seed']))
@@ -541,9 +600,10 @@ def execute(case):
       if isinstance(n.__fn_or_cls__, auto_config.AutoConfig):
         try:
           auto_config.inline(n)
-        except TypeError:
+        except TypeError as e:
           if not case.get('partial'):
-            raise
+            obs['raised'] = f'auto_config.inline: {type(e).__name__}: {e}'[:200]
+            return obs, None
           refused += 1         # a function that does not return a Config cannot be inlined into one
     obs['refused'] = refused
     if case.get('partial'):
@@ -645,6 +705,12 @@ def oracle(case, real):
     return flat_oracle(case, real)
   if 'raised' in real:
     return {'what': f'{name} raised', 'raised': real['raised']}
+  if name == 'leaf_identity':
+    if real.get('same_build') is not True:
+      return {'what': f"{real['applied']} changed what is built: a leaf object reaches the callable as another object "
+                      '(a sentinel compared by identity, leaves referring to one shared object)',
+              'before': real.get('before'), 'after': real.get('after')}
+    return None
   if name == 'buildable_defaults':
     for key, what in (('all_defaults_set', 'after materialize_defaults a parameter with a default is still unset '
                                             '(inside a default value that is a Buildable)'),
